@@ -147,3 +147,14 @@ Definition boundary_ok (prev : option Z) : bool :=
 Fixpoint rx_search_nb (body : rx) (prev : option Z) (s : text) : bool :=
   (boundary_ok prev && rx_prefix body s)
   || match s with [] => false | c :: q => rx_search_nb body (Some c) q end.
+
+(* ---------------------------------------------------------------- SPEC: the language of an expression *)
+Fixpoint lang (r : rx) (s : text) : Prop :=
+  match r with
+  | RNil => False
+  | REps => s = []
+  | RC k => exists c, s = [c] /\ cc_mem k c = true
+  | RCat a b => exists s1 s2, s = s1 ++ s2 /\ lang a s1 /\ lang b s2
+  | RAlt a b => lang a s \/ lang b s
+  | RStar a => exists ss, s = concat ss /\ Forall (lang a) ss
+  end.
